@@ -13,8 +13,7 @@ from . import genpipe, loader, par, specs, values, wellformed
 BATCH = 120
 
 PRELUDE_MODULES = {
-    name: "eolib.protocol._generated.net." + genpipe.snake(name)
-    for name in ("PacketFamily", "PacketAction", "E1", "E2", "E3", "P", "V", "U", "K", "O")
+    n.get("name"): "eolib.protocol._generated.net." + genpipe.snake(n.get("name")) for n in specs.prelude(1)
 }
 
 
